@@ -28,6 +28,38 @@ const (
 	jan1        = int64(946684800000) // 2000-01-01T00:00:00Z
 )
 
+// Time zones of a plan (cfg "tz"): lindb computes segments (day / month / year stores) and families (hour / day of month /
+// month) in the node's LOCAL time (pkg/timeutil calculators use time.Local). Zones with a whole-hour offset, a half-hour
+// offset, and zones with daylight saving; in the latter the plans use days AFTER the switch of the month (cfg "month"),
+// where "day d of the month" is no longer "start of the month + (d-1) * 24h" (the day of the switch itself, which has 23
+// hours, is not used: C04 says nothing about days that are not 24 hours long).
+var zoneNames = []string{"UTC", "Asia/Shanghai", "Asia/Kolkata", "Europe/Berlin", "America/New_York", "America/St_Johns"}
+var zones = func() []*time.Location {
+	var r []*time.Location
+	for _, n := range zoneNames {
+		l, err := time.LoadLocation(n)
+		if err != nil {
+			panic(err)
+		}
+		r = append(r, l)
+	}
+	return r
+}()
+
+// zoneDays: per zone the month of year 2000 the plans use, its three primary source days and the second day that goes with each.
+var zoneDays = []struct {
+	month int
+	days  []int
+	day2  map[int]int
+}{
+	{1, []int{1, 3, 31}, map[int]int{1: 2, 3: 17, 31: 30}},
+	{1, []int{1, 3, 31}, map[int]int{1: 2, 3: 17, 31: 30}},
+	{1, []int{1, 3, 31}, map[int]int{1: 2, 3: 17, 31: 30}},
+	{3, []int{27, 29, 31}, map[int]int{27: 28, 29: 30, 31: 30}},  // Europe: switch on 2000-03-26
+	{4, []int{3, 17, 30}, map[int]int{3: 4, 17: 18, 30: 29}},    // US / Canada: switch on 2000-04-02
+	{4, []int{3, 17, 30}, map[int]int{3: 4, 17: 18, 30: 29}},
+}
+
 type target struct {
 	interval int64
 	store    string // store name (path)
@@ -47,14 +79,20 @@ func genC04(rng *rand.Rand, tier string) *core.Plan {
 	p.Cfg["switch_pm"] = []int{50, 300, 600}[rng.Intn(3)]
 	p.Cfg["threshold"] = []int{0, 2}[rng.Intn(2)]
 	p.Cfg["metrics"] = 1 + rng.Intn(2)
-	p.Cfg["day"] = []int{1, 3, 31}[rng.Intn(3)]         // source segment: 2000-01-<day>
+	tz := []int{0, 0, 0, 1, 2, 3, 4, 5}[rng.Intn(8)]
+	zd := zoneDays[tz]
+	if tz != 0 {
+		p.Cfg["tz"] = tz
+		p.Cfg["month"] = zd.month
+	}
+	p.Cfg["day"] = zd.days[rng.Intn(3)] // source segment: 2000-<month>-<day>
 	p.Cfg["targets"] = []int{1, 1, 2, 3}[rng.Intn(4)]   // bit0: 5m (month), bit1: 1h (year)
 	p.Cfg["crash_pm"] = []int{0, 0, 4, 15}[rng.Intn(4)] // process death per file-system operation during rollup ops
 	// a second source segment (another day of the month) in a third of the plans: two day stores feed the same month
 	// store (one 5m family per day) and the same family of the year store (1h); flush operations with t >= 3 go to it,
 	// and every rollup trigger goes to both stores (half of the time from two tasks at once)
 	if rng.Intn(3) == 0 {
-		p.Cfg["day2"] = map[int]int{1: 2, 3: 17, 31: 30}[p.Cfg["day"]]
+		p.Cfg["day2"] = zd.day2[p.Cfg["day"]]
 		p.Cfg["par_trigger"] = rng.Intn(2)
 	}
 	n := 3 + rng.Intn(9)
@@ -102,6 +140,8 @@ type c04 struct {
 	base       string
 	srcName    string
 	day        int
+	month      int
+	loc        *time.Location
 	targets    []target
 	mgr        kv.StoreManager
 	src        kv.Store
@@ -125,7 +165,17 @@ type c04 struct {
 	pendingKnown func()                 // first C04/first-last-order observation of the run (known finding)
 }
 
-func (h *c04) dayStart() int64 { return jan1 + int64(h.day-1)*dayMs }
+func (h *c04) dayStart() int64 { return h.dayStartOf(h.day) }
+
+// dayStartOf: local midnight of day d of the plan's month.
+func (h *c04) dayStartOf(d int) int64 {
+	return time.Date(2000, time.Month(h.month), d, 0, 0, 0, 0, h.loc).UnixMilli()
+}
+
+// slotKey names a target slot by the minute its time range starts at; slots are counted from the start of the target family.
+func slotKey(famStart, interval, ts int64) int {
+	return int((famStart + (ts-famStart)/interval*interval) / 60000)
+}
 
 func (h *c04) open() error {
 	h.mgr = kv.VerifNewStoreManager()
@@ -275,7 +325,7 @@ func (h *c04) check(when string) {
 			snap := fam.GetSnapshot()
 			tt := t
 			var err error
-			obs, err = readFamily(snap, h.metrics, func(_ uint32, s uint16) int { return int((tt.famStart + int64(s)*tt.interval) / tt.interval) })
+			obs, err = readFamily(snap, h.metrics, func(_ uint32, s uint16) int { return slotKey(tt.famStart, tt.interval, tt.famStart+int64(s)*tt.interval) })
 			snap.Close()
 			if err != nil {
 				c.Violate("C04/unreadable", "%s: target %s: %v", when, t.store, err)
@@ -312,14 +362,20 @@ func (h *c04) check(when string) {
 func runC04(c *core.RunCtx) {
 	sim := c.Sim
 	h := &c04{c: c, sim: sim, base: filepath.Join(c.Dir, "db"), day: c.Plan.C("day", 1), models: map[string]model{}, origins: map[originKey][]origin{}, nMetrics: c.Plan.C("metrics", 1),
-		crashP: float64(c.Plan.C("crash_pm", 0)) / 1000}
-	h.srcName = filepath.Join(h.base, "day", fmt.Sprintf("200001%02d", h.day))
+		crashP: float64(c.Plan.C("crash_pm", 0)) / 1000, month: c.Plan.C("month", 1), loc: zones[c.Plan.C("tz", 0)]}
+	// the zone of the node: process-wide in Go, one run at a time per process
+	defer func(l *time.Location) { time.Local = l }(time.Local)
+	time.Local = h.loc
+	if h.loc != time.UTC {
+		sim.Probe("zone-" + h.loc.String())
+	}
+	h.srcName = filepath.Join(h.base, "day", fmt.Sprintf("2000%02d%02d", h.month, h.day))
 	h.days = []int{h.day}
 	if d2 := c.Plan.C("day2", 0); d2 != 0 {
 		h.days = append(h.days, d2)
 	}
 	for _, d := range h.days {
-		h.srcNames = append(h.srcNames, filepath.Join(h.base, "day", fmt.Sprintf("200001%02d", d)))
+		h.srcNames = append(h.srcNames, filepath.Join(h.base, "day", fmt.Sprintf("2000%02d%02d", h.month, d)))
 	}
 	for i := 0; i < h.nMetrics; i++ {
 		h.metrics = append(h.metrics, uint32(10+i))
@@ -328,12 +384,12 @@ func runC04(c *core.RunCtx) {
 	if tbits&1 != 0 {
 		// 5 minutes: month calculator, segment = month, family = day of month, slots within the day
 		for _, d := range h.days {
-			h.targets = append(h.targets, target{interval: 5 * 60 * 1000, store: filepath.Join(h.base, "month", "200001"), family: fmt.Sprint(d), famStart: jan1 + int64(d-1)*dayMs, day: d})
+			h.targets = append(h.targets, target{interval: 5 * 60 * 1000, store: filepath.Join(h.base, "month", fmt.Sprintf("2000%02d", h.month)), family: fmt.Sprint(d), famStart: h.dayStartOf(d), day: d})
 		}
 	}
 	if tbits&2 != 0 {
 		// 1 hour: year calculator, segment = year, family = month, slots within the month
-		h.targets = append(h.targets, target{interval: hourMs, store: filepath.Join(h.base, "year", "2000"), family: "1", famStart: jan1})
+		h.targets = append(h.targets, target{interval: hourMs, store: filepath.Join(h.base, "year", "2000"), family: fmt.Sprint(h.month), famStart: h.dayStartOf(1)})
 	}
 	for _, t := range h.targets {
 		h.models[t.key()] = model{}
@@ -414,7 +470,7 @@ func runC04(c *core.RunCtx) {
 						c.Anomaly("write file: %v", err)
 						return
 					}
-					famStart := jan1 + int64(h.days[di]-1)*dayMs + int64(hour)*hourMs
+					famStart := h.dayStartOf(h.days[di]) + int64(hour)*hourMs
 					h.files++
 					for _, t := range h.targets {
 						if !t.accepts(h.days[di]) {
@@ -422,7 +478,7 @@ func runC04(c *core.RunCtx) {
 						}
 						tt := t
 						fileNo := h.files
-						h.models[t.key()].addFile(fc, func(_ uint32, s uint16) int { return int((famStart + int64(s)*srcInterval) / tt.interval) },
+						h.models[t.key()].addFile(fc, func(_ uint32, s uint16) int { return slotKey(tt.famStart, tt.interval, famStart+int64(s)*srcInterval) },
 							func(k cellKey, v float64, s uint16) {
 								ok := originKey{tt.interval, k}
 								h.origins[ok] = append(h.origins[ok], origin{epoch: h.epoch, file: fileNo, at: famStart + int64(s)*srcInterval, v: v})
